@@ -509,7 +509,7 @@ LOG_HASHSEED_INDEPENDENT = False
 TIERS = {
     "quick": {"runs": 1600, "gen": {"max_steps": 7, "schedules": 3}, "soft_deadline_s": 200, "hard_timeout_s": 600,
               "n_echo": 8, "minimise_budget_s": 60},
-    "thorough": {"runs": 40000, "gen": {"max_steps": 7, "schedules": 8}, "soft_deadline_s": 1700, "hard_timeout_s": 2700,
+    "thorough": {"runs": 24000, "gen": {"max_steps": 7, "schedules": 8}, "soft_deadline_s": 1700, "hard_timeout_s": 2700,
                  "n_echo": 32, "minimise_budget_s": 120},
 }
 RULE = ("one evaluation = one seeded scenario: 1-3 tables of 0-12 rows (unique id, group columns, nullable dyadic "
